@@ -188,6 +188,10 @@ func (g c10gen) valid() (doc m, expect m) {
 			key := g.pick("executeHookOnEvent", "watchEvent")
 			d[key] = strs(evs)
 			e["events"] = strs(evs)
+			if key == "executeHookOnEvent" && g.maybe(2) {
+				// both keys: executeHookOnEvent has priority over the deprecated watchEvent, also when it is empty
+				d["watchEvent"] = strs([][]string{{"Added"}, {"Added", "Deleted"}, {"Modified"}, {}}[g.rng.IntN(4)])
+			}
 		}
 		if g.maybe(4) {
 			d["executeHookOnSynchronization"] = false
